@@ -1533,6 +1533,17 @@ where
             return;
         };
 
+        // with a spread among the first two arguments nothing can be injected: derive nothing
+        // (deriving `props` may import `mergeDefaults`)
+        if call_expr
+            .args
+            .iter()
+            .take(2)
+            .any(|arg| arg.spread.is_some())
+        {
+            return;
+        }
+
         // an option the call already has is kept: don't derive it (deriving `props` may import
         // `mergeDefaults`, which would then be left unused)
         let props_types = if has_define_component_option(call_expr, "props") {
